@@ -39,13 +39,13 @@ def generate(rng, tier):
     case = gen.gen_case(rng, {
         "p_info": 0.0, "p_demux": 0.12, "p_minimal_report": 0.0, "json": False, "p_stdout": 0.0,
         "in_containers": ("",), "out_containers": ("",), "fastq": True, "p_interleaved_out": 0.0,
-        "n_records": (0, 30), "p_interleaved_redirect": 0.0, "p_huge": 0.012, "p_quiet": 0.04, "p_debug": 0.03,
+        "n_records": (0, 30), "p_interleaved_redirect": 0.0, "p_huge": 0.02, "p_quiet": 0.04, "p_debug": 0.03,
     })
     case["input"]["layout"] = "two" if case["paired"] else "single"
     case["input"]["containers"] = [""] * (2 if case["paired"] else 1)
     case["input"]["members"] = [1] * (2 if case["paired"] else 1)
     case["outs"] = [g for g in case["outs"] if g[0] != "--interleaved"]
-    case["n_variants"] = rng.randint(4, 7)
+    case["n_variants"] = rng.randint(4, 7) if case["meta"].get("big") != 2 else 7
     case["variant_seed"] = rng.randrange(1 << 40)
     return case
 
@@ -90,7 +90,8 @@ def make_variant(base, rng, reference=False):
     if not reference and paired and rng.random() < 0.45:
         layout = "interleaved"
     cores = 1
-    if not reference and rng.random() < 0.5:
+    huge = base["meta"].get("big") == 2  # size-dependent paths of the multi-core writers: more such variants
+    if not reference and rng.random() < (0.8 if huge else 0.5):
         cores = base["knobs"]["workers"]
     nfiles = 2 if layout == "two" else 1
     conts = [""] * nfiles if reference else [rng.choice(IN_CONTAINERS) for _ in range(nfiles)]
@@ -123,6 +124,8 @@ def make_variant(base, rng, reference=False):
                     classes[pairkey] = [".fastq"] if fmt.strip_container(g[1]).endswith((".fastq", ".fq")) else [".fasta"]
                 else:
                     r_ = rng.random()
+                    if huge and r_ < 0.6:
+                        r_ += 0.3
                     classes[pairkey] = [".fastq", ".fq"] if r_ < 0.6 else ([".fasta", ".fa"] if r_ < 0.88 else NO_EXT)
                 if v["fmt"] == "fasta" and not reference and rng.random() < 0.12:
                     classes[pairkey] = NO_EXT  # no recognised extension: falls back to the input format
